@@ -570,8 +570,9 @@ impl BuildJob<'_> {
                     log_err!("{:?}: rename {:?}: {}", t, tmp_name, e);
                     rv = EXIT_BUILD_JOB_ERROR;
                 }
-            } else {
+            } else if rv == EXIT_SUCCESS {
                 // no output generated at all; that's ok
+                // (but if copying stdout failed above, leave the old target alone)
 
                 // TODO(maybe): Remove EISDIR/EPERM exception or remove directory?
                 // Needed for makedir2 test. :(
